@@ -122,15 +122,22 @@ SimPropose ==
 SimCommit ==
     \/ \E p \in OneMem : \E bv \in {PickByVal(grp[p])} :
             \E dt \in {RandomElement({b \in BOOLEAN : Z = 0 /\ (b => ("detached" \in Features /\ RandomElement(1..(3 + Z)) = 1))})} : Commit(p, bv, dt)
-    \/ \E p \in Mem : ClearPending(p)
+    \/ RandomElement(1..(5 + Z)) = 1 /\ \E p \in Mem : ClearPending(p)
     \/ \E p \in Mem : \E n \in det[p] : ApplyDetached(p, n)
 
+\* application traffic: bursts, deliveries biased to what the receiver can still read, the newest message
+\* first (reordering), and re-delivery of messages that were already accepted (replay)
+Accepted == {i \in 1..Len(hist) : hist[i].a = "DeliverApp" /\ hist[i].res = "ok"}
 SimApp ==
-    \/ \E p \in Mem : \E k \in {RandomElement({1, 1, 1, 2, 3, Window, Window + 1, Window + 2, 1 + Z})} : Encrypt(p, k)
+    \/ \E p \in Mem : \E k \in {RandomElement({1, 1, 2, 3, 3, Window, Window + 1, Window + 2, 2 + Z})} : Encrypt(p, k)
     \/ Len(apps) > 0 /\ \E q \in Mem : \E a \in {RandomElement(1..Len(apps))} :
             \E gen \in {RandomElement({apps[a].lo, apps[a].hi, RandomElement(apps[a].lo..apps[a].hi)})} : DeliverApp(q, a, gen)
     \/ \E q \in Mem : \E a \in {a \in 1..Len(apps) : apps[a].ks = grp[q].ks \/ apps[a].epoch + Retention + 1 >= grp[q].epoch} :
-            \E gen \in {RandomElement({apps[a].lo, apps[a].hi, RandomElement(apps[a].lo..apps[a].hi)})} : DeliverApp(q, a, gen)
+            \E gen \in {apps[a].hi, RandomElement(apps[a].lo..apps[a].hi)} : DeliverApp(q, a, gen)
+    \/ \E q \in Mem : \E a \in {a \in 1..Len(apps) : apps[a].ks = grp[q].ks \/ apps[a].epoch + Retention + 1 >= grp[q].epoch} :
+            \E gen \in {apps[a].hi, RandomElement(apps[a].lo..apps[a].hi)} : DeliverApp(q, a, gen)
+    \/ Accepted # {} /\ \E i \in {RandomElement(Accepted)} : DeliverApp(hist[i].p, hist[i].args.app, hist[i].args.gen)
+    \/ Accepted # {} /\ \E i \in {RandomElement(Accepted)} : DeliverApp(hist[i].p, hist[i].args.app, hist[i].args.gen)
 
 SimStore ==
     \/ \E p \in Mem : Write(p)
@@ -151,9 +158,29 @@ SimOther ==
         ELSE IF c <= WPropose + WCommit + WApp + WStore /\ "storage" \in Features THEN SimStore
         ELSE SimMisc
 
+\* Bootstrap: behaviours of the "big tree" configurations first grow the group to BootSize members in the
+\* fewest steps (key packages, by-value adds three at a time, joins), so that the random part of the behaviour
+\* runs on a full tree (deep paths, many receivers at different distances, room for interior blanks)
+CONSTANT BootSize
+
+Outstanding == {i \in 1..Len(kps) : ~kps[i].used /\ kps[i].bad = ""}
+Booting == BootSize > 0 /\ Cardinality(Mem) < BootSize /\ TLCGet("level") < 6 * BootSize
+
+BootAdds(g) ==
+    LET cand == SetToSortedSeq({i \in Outstanding : kps[i].owner \notin Members(g.tree)})
+        k == IF Len(cand) > 3 THEN 3 ELSE Len(cand)
+    IN [i \in 1..k |-> [kind |-> "add", ref |-> 0, by |-> g.leaf, kp |-> cand[i]]]
+
+Bootstrap ==
+    IF ProgressEnabled THEN Progress
+    ELSE IF \E p \in Parties : ~HasGroup(p) /\ ~\E i \in Outstanding : kps[i].owner = p
+    THEN \E p \in Parties : GenKeyPackage(p)
+    ELSE \E p \in {RandomElement({q \in Mem : Z = 0})} : Commit(p, BootAdds(grp[p]), FALSE)
+
 SimNext ==
-    \E r \in {RandomElement(1..(100 + Z))} :
-        IF r <= WProgress /\ ProgressEnabled THEN Progress ELSE SimOther
+    IF Booting THEN Bootstrap
+    ELSE \E r \in {RandomElement(1..(100 + Z))} :
+            IF r <= WProgress /\ ProgressEnabled THEN Progress ELSE SimOther
 
 SimSpec == Init /\ [][Logged(SimNext)]_vars
 
